@@ -26,10 +26,16 @@ type call struct {
 	id    uint64
 }
 type obs struct {
-	Case             string `json:"case"`
-	Calls            []call `json:"calls"`
-	AboveSeed        bool   `json:"aboveSeed"`
-	DistinctChannels int    `json:"distinctChannels"`
+	Case             string  `json:"case"`
+	Calls            []call  `json:"calls"` // a sample (all calls if few) for the pairwise real-time rule
+	N                int     `json:"n"`     // number of calls
+	DistinctIds      int     `json:"distinctIds"`
+	PerCaller        [][]int `json:"perCaller"` // ranks in call order per (goroutine, lifetime)
+	MaxLife1         int     `json:"maxLife1"`  // highest rank issued by the first manager lifetime
+	MinLife2         int     `json:"minLife2"`  // lowest rank issued by the second
+	Errors           int     `json:"errors"`
+	AboveSeed        bool    `json:"aboveSeed"`
+	DistinctChannels int     `json:"distinctChannels"`
 }
 
 func atoi(s string, d int) int {
@@ -116,7 +122,47 @@ func TestIds(t *testing.T) {
 		for i := range o.Calls {
 			o.Calls[i].Rank = rank[o.Calls[i].id]
 		}
-		o.DistinctChannels = len(chans)
+		o.N, o.DistinctIds, o.DistinctChannels = len(o.Calls), len(rank), len(chans)
+		o.MinLife2 = len(o.Calls) + 1
+		seqs := map[[2]int][]call{}
+		for _, c := range o.Calls {
+			seqs[[2]int{c.G, c.Life}] = append(seqs[[2]int{c.G, c.Life}], c)
+			if c.Err != "" {
+				o.Errors++
+			}
+			if c.Life == 1 && c.Rank > o.MaxLife1 {
+				o.MaxLife1 = c.Rank
+			}
+			if c.Life == 2 && c.Rank < o.MinLife2 {
+				o.MinLife2 = c.Rank
+			}
+		}
+		o.PerCaller = [][]int{}
+		for _, cs := range seqs {
+			sort.Slice(cs, func(i, j int) bool { return cs[i].K < cs[j].K })
+			rs := []int{}
+			for _, c := range cs {
+				rs = append(rs, c.Rank)
+			}
+			o.PerCaller = append(o.PerCaller, rs)
+		}
+		if len(o.Calls) > 400 { // keep a sample for the pairwise rule: the calls around collisions first, then a stride
+			byRank := map[int][]call{}
+			for _, c := range o.Calls {
+				byRank[c.Rank] = append(byRank[c.Rank], c)
+			}
+			var keep []call
+			for _, cs := range byRank {
+				if len(cs) > 1 {
+					keep = append(keep, cs...)
+				}
+			}
+			stride := len(o.Calls)/300 + 1
+			for i := 0; i < len(o.Calls) && len(keep) < 400; i += stride {
+				keep = append(keep, o.Calls[i])
+			}
+			o.Calls = keep
+		}
 		if err := enc.Encode(o); err != nil {
 			t.Fatal(err)
 		}
